@@ -273,6 +273,9 @@ func (fv floatValue) String() string {
 }
 
 func (fv floatValue) ToKey(b *bytes.Buffer) {
+	if fv == 0 {
+		fv = 0 // -0.0 equals 0.0
+	}
 	n := math.Float64bits(float64(fv))
 	b.WriteByte(1)
 	b.WriteByte(HkFloat)
